@@ -448,6 +448,91 @@ func runC17(tier string) int {
 			}
 		}
 	}
+	// regeneration histories: the tool is normally run over the files of an earlier run (the
+	// committed ones). Every ordered pair of input shapes, two runs in the same directory: what the
+	// second run leaves must be the second input's lists, whatever the first run wrote.
+	{
+		mk := func(n int) []byte {
+			var b bytes.Buffer
+			for i := 0; i < n; i++ {
+				b.WriteString(synthWord(i*7 + n))
+				b.WriteByte('\n')
+			}
+			return b.Bytes()
+		}
+		type shape struct {
+			name   string
+			bodies map[string][]byte
+		}
+		shapes := []shape{{"canonical", canon.bodies}}
+		for _, n := range []int{0, 1, 3, 2048, 5000} {
+			sh := shape{fmt.Sprintf("%d-words", n), map[string][]byte{}}
+			for k, t := range genTargets {
+				sh.bodies[t.stem] = mk(n + k%2*n/2) // neighbouring targets get different lengths
+			}
+			shapes = append(shapes, sh)
+		}
+		type regen struct{ a, b int }
+		var pairs []regen
+		for a := range shapes {
+			for b := range shapes {
+				pairs = append(pairs, regen{a, b})
+			}
+		}
+		probsOf := make([][]string, len(pairs))
+		errOf := make([]error, len(pairs))
+		nRegenRecorded := 0
+		pch := make(chan int, len(pairs))
+		for i := range pairs {
+			pch <- i
+		}
+		close(pch)
+		var wg2 sync.WaitGroup
+		for s := 0; s < nsrv; s++ {
+			wg2.Add(1)
+			go func() {
+				defer wg2.Done()
+				srv := newGenServer()
+				defer srv.srv.Close()
+				for i := range pch {
+					dir, err := os.MkdirTemp(scratch, "regen-")
+					if err != nil {
+						errOf[i] = err
+						continue
+					}
+					first, err := runGenerator(tool, srv, shapes[pairs[i].a].bodies, dir)
+					if err == nil && len(first) == 0 {
+						probsOf[i], errOf[i] = runGenerator(tool, srv, shapes[pairs[i].b].bodies, dir)
+					} else {
+						errOf[i] = err // a failing first run is reported by the single-run phase
+					}
+					os.RemoveAll(dir)
+				}
+			}()
+		}
+		wg2.Wait()
+		for i, pr := range pairs {
+			if errOf[i] != nil {
+				die("regeneration run: %v", errOf[i])
+			}
+			r.Evaluations += 20
+			for _, p := range probsOf[i] {
+				r.ViolationCount++
+				if nRegenRecorded < 6 && len(r.Violations) < 40 { // these replays carry twenty files each
+					nRegenRecorded++
+					cs := map[string]interface{}{"kind": "generator-regeneration", "bodies": map[string]string{}, "previous": map[string]string{}}
+					for k, v := range shapes[pr.b].bodies {
+						cs["bodies"].(map[string]string)[k] = fmt.Sprintf("%x", v)
+					}
+					for k, v := range shapes[pr.a].bodies {
+						cs["previous"].(map[string]string)[k] = fmt.Sprintf("%x", v)
+					}
+					r.Violations = append(r.Violations, Violation{Key: fmt.Sprintf("gen:regen:%s->%s:%d", shapes[pr.a].name, shapes[pr.b].name, len(r.Violations)), What: fmt.Sprintf("second run (%s) in the directory of a first run (%s): %s", shapes[pr.b].name, shapes[pr.a].name, p), Case: cs})
+				}
+			}
+		}
+		r.Extra["regeneration_histories"] = len(pairs)
+	}
 	// canonical output must also reproduce the committed lists and compile with the real compiler
 	{
 		srv := newGenServer()
@@ -501,7 +586,7 @@ func runC17(tier string) int {
 		os.RemoveAll(dir)
 	}
 	r.Distinct = int64(len(distinctLists))
-	r.Rule = fmt.Sprintf("the real update-wordlist binary (built from the current tree with -tags verif) is run with its HTTP fetches redirected to a loopback server owned by the check; enumerated inputs: every file of <=%d lines over the line alphabet %+q (blank line, ASCII, precomposed and decomposed accents, Han, kana, conjoining jamo, letters beyond U+FFFF), with and without trailing LF, ten pairwise different files per tool run assigned to the ten targets by rotation (thorough: every file to every target), plus the size ladder 1/2047/2048/2049/5000/20000/100000 lines, files with words of 4095...2^20+1 letters and the ten canonical lists (with and without trailing LF). Oracle: tool exits 0, each of the ten expected URLs requested, each generated file parses and its variable holds exactly the non-empty input lines byte for byte in order (read from the []string literal, or, when the list is written in another representation, by compiling the generated package and printing its variables); canonical run reproduces the committed lists and compiles with go build. distinct_nontrivial = distinct input files", maxLines, lineAlphabet)
+	r.Rule = fmt.Sprintf("the real update-wordlist binary (built from the current tree with -tags verif) is run with its HTTP fetches redirected to a loopback server owned by the check; enumerated inputs: every file of <=%d lines over the line alphabet %+q (blank line, ASCII, precomposed and decomposed accents, Han, kana, conjoining jamo, letters beyond U+FFFF), with and without trailing LF, ten pairwise different files per tool run assigned to the ten targets by rotation (thorough: every file to every target), plus the size ladder 1/2047/2048/2049/5000/20000/100000 lines, files with words of 4095...2^20+1 letters and the ten canonical lists (with and without trailing LF). Oracle: tool exits 0, each of the ten expected URLs requested, each generated file parses and its variable holds exactly the non-empty input lines byte for byte in order (read from the []string literal, or, when the list is written in another representation, by compiling the generated package and printing its variables); canonical run reproduces the committed lists and compiles with go build; regeneration histories: every ordered pair of six input shapes (canonical, 0/1/3/2048/5000 words) as two runs in the same directory, the second run judged by the same oracle. distinct_nontrivial = distinct input files", maxLines, lineAlphabet)
 	r.Extra["enumerated_files"] = nEnumerated
 	r.Extra["tool_runs"] = len(batches) + 1
 	r.Samples = append(r.Samples, map[string]interface{}{"input": "a\n\n\u00e9\nbc", "expected_list": []string{"a", "\u00e9", "bc"}}, map[string]interface{}{"input": batches[len(batches)/2].desc})
@@ -536,7 +621,8 @@ func replayC17(path string) int {
 	var rep struct {
 		What string `json:"what"`
 		Case struct {
-			Bodies map[string]string `json:"bodies"`
+			Bodies   map[string]string `json:"bodies"`
+			Previous map[string]string `json:"previous"`
 		} `json:"case"`
 	}
 	if err := jsonUnmarshal(data, &rep); err != nil {
@@ -556,7 +642,22 @@ func replayC17(path string) int {
 	srv := newGenServer()
 	defer srv.srv.Close()
 	fmt.Printf("replaying C17 generator run\nrecorded: %s\n", rep.What)
-	probs, err := runGenerator(tool, srv, bodies, "")
+	dir := ""
+	if len(rep.Case.Previous) > 0 {
+		// a regeneration history: first the earlier run, in the same directory
+		prev := map[string][]byte{}
+		for k, v := range rep.Case.Previous {
+			b := make([]byte, len(v)/2)
+			fmt.Sscanf(v, "%x", &b)
+			prev[k] = b
+		}
+		dir, _ = os.MkdirTemp(scratch, "regen-")
+		defer os.RemoveAll(dir)
+		if p0, err := runGenerator(tool, srv, prev, dir); err != nil || len(p0) > 0 {
+			fmt.Println("replay: the first run of the history already fails:", p0, err)
+		}
+	}
+	probs, err := runGenerator(tool, srv, bodies, dir)
 	if err != nil {
 		die("%v", err)
 	}
